@@ -138,12 +138,26 @@ fn cases(tier: Tier) -> &'static Vec<Case> {
                 });
             }
         }
+        // the same after a long history of plain exchanges on the connection
+        for (class, lines, follow) in offending(tier) {
+            for h in history_lengths(deep(tier)) {
+                let mut bytes = history(h);
+                bytes.extend_from_slice(b"POST /victim HTTP/1.1\r\nHost: t\r\n");
+                for l in &lines {
+                    bytes.extend_from_slice(l.as_bytes());
+                    bytes.extend_from_slice(b"\r\n");
+                }
+                bytes.extend_from_slice(b"\r\n");
+                bytes.extend_from_slice(&follow);
+                v.push(Case { class: class.clone(), bytes });
+            }
+        }
         v
     })
 }
 
 fn scenario(c: &Case) -> Scenario {
-    Scenario::one_conn(vec![c.bytes.clone()], AppProgram::simple())
+    Scenario::one_conn(split_history(&c.bytes), AppProgram::simple())
 }
 
 fn extra(j: &Judged) -> Vec<Failure> {
@@ -206,7 +220,7 @@ impl Check for C16 {
     fn rule(&self, tier: Tier) -> String {
         let classes: std::collections::BTreeSet<String> = offending(tier).into_iter().map(|o| o.0).collect();
         format!(
-            "headers Content-Length / Transfer-Encoding / Host / X-A with SP{} inserted before the name, inside it, or before the colon, alone, after another header (obsolete line-folding shape) and with a framing companion; Content-Length values {{empty, +5, -5, -0, 5a, a5, 0x5, '5 5', '5,5', '5, 5', 5.0, abc, 2^64, 30 nines}} with and without a chunked companion; each at position 1..{} of a pipeline and followed by bytes arranged so that every possible misreading finds the request `GET /smuggled`; {} conversations in {} classes; expected: earlier answers, then 400 and end-of-stream, neither the offending request nor `GET /smuggled` delivered",
+            "headers Content-Length / Transfer-Encoding / Host / X-A with SP{} inserted before the name, inside it, or before the colon, alone, after another header (obsolete line-folding shape) and with a framing companion; Content-Length values {{empty, +5, -5, -0, 5a, a5, 0x5, '5 5', '5,5', '5, 5', 5.0, abc, 2^64, 30 nines}} with and without a chunked companion; each at position 1..{} of a pipeline and followed by bytes arranged so that every possible misreading finds the request `GET /smuggled`; every offending request also after a history of 64 / 100 / 1024 (thorough: 19 lengths from 63 to 4097) answered exchanges; {} conversations in {} classes; expected: earlier answers, then 400 and end-of-stream, neither the offending request nor `GET /smuggled` delivered",
             if full(tier) { "/HTAB/VT/FF" } else { "" }, if full(tier) { 3 } else { 2 }, cases(tier).len(), classes.len()
         )
     }
